@@ -90,12 +90,15 @@ def spanqStep (e : SQEng) (t : Tokens) (impl : Option String) : SQEng × StepOut
   let finish (e' : SQEng) (n : Nat) (extra : String) : SQEng × StepOut :=
     let e' := settleEng { e' with recvBatches := e'.recvBatches + countTake e.s.worker e'.s.worker }
     let (fails, obs) := match impl with
-      | some line => sqSpec e'.s.q e.prev n line
+      | some line =>
+        if line == "panic" then
+          (["C16 span queue: the operation panicked (" ++ joinSp t ++ "); in the daemon it runs on the processor goroutine, so the worker exits"], e.prev)
+        else sqSpec e'.s.q e.prev n line
       | none => ([], e.prev)
     ({ e' with prev := obs }, { model := dumpSQ e' ++ extra, specFails := fails })
   match tokStr t 1 with
   | "new" =>
-    let e' : SQEng := { s := SQ.init (tokNat t 2) }
+    let e' : SQEng := { s := SQ.init (effectiveQueueSize (tokNat t 2)) }
     finish e' 0 ""
   | "batch" => finish { e with s := e.s.step (.batch (tokNat t 2)) } (tokNat t 2) ""
   | "connect" =>
